@@ -143,6 +143,8 @@ class MicroPipeline(Scenario):
             from distance3d.hydroelastic_contact._interface import find_contact_surface
             cs_b = find_contact_surface(b1, b2, use_aabb_trees=False)
             c1, c2 = self.bodies(cx, inp)
+            if self.args.get("touch_trees", True):
+                c1.aabb_tree, c2.aabb_tree          # history: the trees were already materialised (e.g. by aabb_tree queries)
             cs_t = find_contact_surface(c1, c2, use_aabb_trees=True)
             out = {"pairs_brute": sorted(zip([int(i) for i in cs_b.intersecting_tetrahedra1], [int(i) for i in cs_b.intersecting_tetrahedra2])),
                    "pairs_tree": sorted(zip([int(i) for i in cs_t.intersecting_tetrahedra1], [int(i) for i in cs_t.intersecting_tetrahedra2])),
